@@ -3,6 +3,19 @@ import numpy as np
 
 MODES5 = [0, 1, 4, 6, 2]          # zero symmetric reflect periodic periodization (mode_to_int codes)
 MODE_NAME = {0: 'zero', 1: 'symmetric', 2: 'periodization', 4: 'reflect', 6: 'periodic'}
+_ALL_MODE_NAMES = {0: 'zero', 1: 'symmetric', 2: 'periodization', 3: 'constant', 4: 'reflect', 5: 'replicate', 6: 'periodic'}
+
+
+def lib_mode(m, *salt):
+    """the spelling of mode m that is handed to the LIBRARY: 'periodization' has the alias 'per' (accepted by
+    mode_to_int, afb1d, sfb1d, the non-separable banks and SWTForward, and by PyWavelets); every property quantifies over
+    the modes, hence over their accepted spellings.  The choice is determined by the case (salt), so replays reproduce it."""
+    import hashlib, os
+    name = _ALL_MODE_NAMES[m]
+    if name == 'periodization' and os.environ.get('VERIF_NO_ALIAS') != '1':
+        if hashlib.sha1(repr(salt).encode()).digest()[0] % 2:
+            return 'per'
+    return name
 
 
 def int_filter(rng, L, amp=3, zero_ends=0.12):
